@@ -20,6 +20,7 @@ fn dispatch(prop: &str, tier: &str, seed: u64, rest: &[String]) -> i32 {
         "C18" => {
             let mut rep = Report::new("C18", ev_tier, seed);
             let miri = rest.iter().any(|a| a == "--miri") || cfg!(miri);
+            vh::panicmon::install();
             vh::c18::run(&mut rep, tier, miri);
             if miri {
                 // a miri run only reports; the evidence file belongs to the native run
@@ -27,6 +28,16 @@ fn dispatch(prop: &str, tier: &str, seed: u64, rest: &[String]) -> i32 {
                 println!("C18 miri-subset: evaluations={} violations={}", rep.evaluations, bad);
                 return if bad == 0 { 0 } else { 1 };
             }
+            rep.finish()
+        }
+        "C20" => {
+            let mut rep = Report::new("C20", ev_tier, seed);
+            vh::c20::run(&mut rep, tier);
+            rep.finish()
+        }
+        "C19" => {
+            let mut rep = Report::new("C19", ev_tier, seed);
+            vh::c19::run(&mut rep, tier);
             rep.finish()
         }
         "C03" | "C04" | "C05" | "C06" | "C10" | "C11" | "C12" | "C13" | "C14" => {
